@@ -48,6 +48,14 @@ func checkC08(c Node) Verdict {
 		}
 		parts = append(parts, rows)
 		concat = append(concat, rows...)
+		// ... and with the inner array standing where the nested table stood, under the table's own name
+		if c["fam"] == "nested" {
+			same := Run(map[string]any{"m": DeepCopy(any(leaf)), "w": doc["w"]}, v.SQL, false)
+			v.Execs++
+			if same.Err != nil || same.Panic != nil || !Equal(any(same.Rows), any(rows)) {
+				return fail("inner", v.SQL, append(v.Sig, "inner", "same-name"), "the statement run directly on an inner array placed under the table's own name: %s, under another name: %s", same.Describe(), Canon(any(rows)))
+			}
+		}
 	}
 	if concat == nil {
 		concat = []any{}
